@@ -974,6 +974,153 @@ def checker_demand_case(layout, am, untagged_kind=None):
             'matrix': {'profile': 'car', 'travelTimes': [0] * (n * n), 'distances': [0] * (n * n)}, 'solution': solution_doc(stops, (0, ns))}
 
 
+def ob_checker_assignment(ctx, n_unassigned=0, with_pickup=False):
+    """C12 (assignment group): `check_vehicles` and `check_jobs_presence` (real MIR; hash maps / sets as association lists
+    over the id strings) on a solution of two tours - vehicle of the second tour and both shift indices symbolic - with three
+    activity slots (two in the first tour, one in the second) whose job id is a symbolic choice among the two jobs of the
+    problem (`j0` with two tasks, `j1` with one) and an unknown id, plus `n_unassigned` unassigned entries with the same
+    choice.  Each check answers Ok exactly when its documented rule holds: every tour names a known vehicle and no
+    (vehicle, shift) drives two tours; every served job is known, lives in ONE tour (vehicle AND shift), has all its tasks
+    served, no pickup after its delivery; the unassigned list has no duplicate, no unknown and no served job; and served +
+    unassigned jobs are all the jobs of the plan."""
+    name = f'checker_assignment[unassigned={n_unassigned}{",pickup" if with_pickup else ""}]'
+    res = Result(name)
+    res.bounds = ('problem: jobs j0 (two tasks: ' + ('pickup + delivery' if with_pickup else 'two deliveries') + '), j1 (one delivery), vehicles v1, v2; solution: tour 1 = (v1, shift s1), tour 2 = (v1|v2, shift s2), '
+                  f'shifts symbolic in 0..1; 3 activity slots (2 + 1) and {n_unassigned} unassigned entries, each a symbolic choice among j0, j1 and an unknown id')
+    t0 = time.time()
+    fns = {'vehicles': ctx.prog.find_free('check_vehicles'), 'jobs_presence': ctx.prog.find_free('check_jobs_presence')}
+    none = lambda ty: mk_option(False, ty=ty)
+    IDS = ('j0', 'j1', 'jX')
+    for cname, fn in fns.items():
+        class Env(CheckerEnv):
+            symbolic_maps = True
+
+            def override(self, engine, st, callee, args, dest_ty):
+                if callee.endswith('str>::ends_with') or callee.endswith('String::ends_with') or '::ends_with' in callee:
+                    return BV(False)          # no id of the template ends with "_break"
+                return super().override(engine, st, callee, args, dest_ty)
+
+        env = Env(ctx.prog, ctx.layout, 16)
+        eng, _ = ctx.engines(env)
+        holder = {}
+
+        def body(st, env=env, eng=eng, fn=fn, holder=holder):
+            env.assumptions.clear()
+
+            def task(kind):
+                place = env.struct('problem::model::JobPlace', location=Opaque('location'), duration=FV.const(0), times=none('Option<Vec<Vec<String>>>'), tag=none('Option<String>'))
+                return env.struct('problem::model::JobTask', places=VecV([place]), demand=none('Option<Vec<i32>>'), order=none('Option<i32>'))
+
+            def job(jid, kinds):
+                lst = lambda k: mk_option(True, VecV([task(k) for x in kinds if x == k]), ty='Option<Vec<JobTask>>') if k in kinds else none('Option<Vec<JobTask>>')
+                return env.struct('problem::model::Job', id=Opaque(f'"{jid}"'), pickups=lst('p'), deliveries=lst('d'), replacements=none('Option<Vec<JobTask>>'),
+                                  services=none('Option<Vec<JobTask>>'), skills=none('Option<JobSkills>'), value=none('Option<f64>'), group=none('Option<String>'),
+                                  compatibility=none('Option<String>'))
+            j0_kinds = ('p', 'd') if with_pickup else ('d', 'd')
+            jobs = [job('j0', j0_kinds), job('j1', ('d',))]
+            vt = Agg('struct', [VecV([Opaque('"v1"'), Opaque('"v2"')]) if f == 'vehicle_ids' else Opaque(f) for f in ctx.layout.fields('problem::model::VehicleType')], 'problem::model::VehicleType')
+            fleet = Agg('struct', [VecV([vt]) if f == 'vehicles' else Opaque(f) for f in ctx.layout.fields('problem::model::Fleet')], 'problem::model::Fleet')
+            plan = Agg('struct', [VecV(jobs) if f == 'jobs' else Opaque(f) for f in ctx.layout.fields('problem::model::Plan')], 'problem::model::Plan')
+            problem = env.struct('problem::model::Problem', plan=plan, fleet=fleet, objectives=Opaque('objectives'))
+            s1, s2 = env.sym_i('shift_1', 0, 1), env.sym_i('shift_2', 0, 1)
+            vsel = z3.Int('vehicle_2')
+            v2 = eng.choose(st, [(vsel == 1, 'v1'), (vsel == 2, 'v2'), (vsel == 3, 'v9')]) if cname == 'vehicles' else eng.choose(st, [(vsel == 1, 'v1'), (vsel == 2, 'v2')])
+            slots = []
+            for i in range(3):
+                c = z3.Int(f'slot{i}_job')
+                jid = eng.choose(st, [(c == k, IDS[k]) for k in range(3)] + ([(c == 3, None)] if i == 2 else []))     # the slot of the second tour may be empty
+                ty = 'delivery'
+                if with_pickup:
+                    tsel = z3.Int(f'slot{i}_type')
+                    ty = eng.choose(st, [(tsel == 0, 'delivery'), (tsel == 1, 'pickup')])
+                slots.append((jid, ty))
+
+            def act(jid, ty):
+                return env.struct('solution::model::Activity', job_id=Opaque(f'"{jid}"'), activity_type=Opaque(f'"{ty}"'), location=none('Option<Location>'), time=none('Option<Interval>'),
+                                  job_tag=none('Option<String>'), commute=none('Option<Commute>'))
+
+            def stop(acts):
+                z = FV.const(0)
+                return EnumV('model::Stop', 0, {0: [env.struct('model::PointStop', location=Opaque('location'), time=env.struct('model::Schedule', arrival=time_str(z), departure=time_str(z)),
+                                                               distance=IV(0, 'i64'), load=VecV([]), parking=none('Option<Interval>'), activities=VecV(acts))]})
+
+            def tour(vid, shift, acts):
+                stops = [stop([act('departure', 'departure')])] + [stop([a]) for a in acts] + [stop([act('arrival', 'arrival')])]
+                return env.struct('solution::model::Tour', vehicle_id=Opaque(f'"{vid}"'), type_id=Opaque('"type1"'), shift_index=shift, stops=VecV(stops), statistic=Opaque('statistic'))
+            tours = [tour('v1', s1, [act(*slots[0]), act(*slots[1])]), tour(v2, s2, [act(*slots[2])] if slots[2][0] is not None else [])]
+            un = []
+            for i in range(n_unassigned):
+                c = z3.Int(f'unassigned{i}_job')
+                un.append(eng.choose(st, [(c == k, IDS[k]) for k in range(3)]))
+            unassigned = mk_option(True, VecV([env.struct('solution::model::UnassignedJob', job_id=Opaque(f'"{u}"'), reasons=VecV([])) for u in un]), ty='Option<Vec<UnassignedJob>>') \
+                if n_unassigned else none('Option<Vec<UnassignedJob>>')
+            solution = env.struct('solution::model::Solution', statistic=Opaque('overall'), tours=VecV(tours), unassigned=unassigned,
+                                  violations=none('Option<Vec<Violation>>'), extras=none('Option<Extras>'))
+            context = Agg('struct', [problem if f == 'problem' else solution if f == 'solution' else Opaque(f) for f in ctx.layout.fields('checker::CheckerContext')], 'checker::CheckerContext')
+            holder.update(s1=s1, s2=s2)
+            return (v2, slots, un, eng.exec_fn(st, fn, [RefV(Cell(context), 0)]))
+
+        paths = eng.explore(body, max_paths=20000)
+        res.paths += len(paths)
+        res.functions |= eng.functions_used
+        saw_ok = saw_err = False
+        for st, out in paths:
+            if out is None:
+                if not no_panic(ctx, res, env, st, what=name):
+                    break
+                continue
+            v2, slots, un, r = out
+            s1, s2 = holder['s1'], holder['s2']
+            same_tour = z3.And(z3.BoolVal(v2 == 'v1'), s1.t == s2.t)
+            if cname == 'vehicles':
+                rule = z3.And(z3.BoolVal(v2 in ('v1', 'v2')), z3.Not(same_tour))
+            else:
+                expected = {'j0': 2, 'j1': 1}
+                conds = []
+                used = []
+                for jid, _ in slots:
+                    if jid is not None and jid not in used:
+                        used.append(jid)
+                for jid in used:
+                    where = [i for i, (x, _) in enumerate(slots) if x == jid]
+                    # one tour: the slots 0,1 are in tour 1, slot 2 in tour 2
+                    if any(i < 2 for i in where) and 2 in where:
+                        conds.append(same_tour)
+                    conds.append(z3.BoolVal(jid in expected and expected.get(jid) == len(where)))
+                    if with_pickup and jid == 'j0':
+                        # pickup index (position among the job activities of its tour) must not be after the delivery index
+                        idx_in_tour = lambda i: (i + 1) if i < 2 else 1        # enumerate() over the tour's activities incl. departure
+                        pk = [idx_in_tour(i) for i in where if slots[i][1] == 'pickup']
+                        dl = [idx_in_tour(i) for i in where if slots[i][1] == 'delivery']
+                        if dl and pk:
+                            conds.append(z3.BoolVal(max(pk) <= min(dl)))
+                conds.append(z3.BoolVal(len(set(un)) == len(un)))
+                conds.append(z3.BoolVal(all(u in expected for u in un)))
+                conds.append(z3.BoolVal(not any(u in used for u in un)))
+                conds.append(z3.BoolVal(len(set(un) | set(used)) == len(expected)))
+                rule = z3.And(*conds)
+            is_ok = r.discr == 0
+            if not decide_claim(ctx, res, env, st, is_ok == rule, what=f'{name}: {cname} on tours (v1, s1: {slots[:2]}), ({v2}, s2: {slots[2:]}), unassigned {un}'):
+                if res.status == 'violated' and res.model is not None:
+                    m = res.model
+                    ev = lambda t: m.eval(t, model_completion=True).as_long()
+                    res.case = {'kind': 'checker_assignment', 'rule': cname, 'vehicle_2': v2, 'shifts': [ev(s1.t), ev(s2.t)], 'slots': [list(x) for x in slots], 'unassigned': un,
+                                'j0_kinds': ['pickup', 'delivery'] if with_pickup else ['delivery', 'delivery']}
+                break
+            if not no_panic(ctx, res, env, st, what=name):
+                break
+            saw_ok = saw_ok or witness(ctx, res, env, st, is_ok)
+            saw_err = saw_err or witness(ctx, res, env, st, z3.Not(is_ok))
+        if res.status != 'holds':
+            break
+        res.witnesses += int(saw_ok) + int(saw_err)
+        if not (saw_ok and saw_err):
+            res.status, res.detail = 'inconclusive', f'vacuous ({cname}): ok={saw_ok} err={saw_err}'
+            break
+    res.time = time.time() - t0
+    return res
+
+
 def ob_checker_limits(ctx, acts_per_stop, has_end=True):
     """C12 (limits group): `check_shift_limits`, `check_shift_time`, `check_recharge_limits` (real MIR) on one tour whose
     statistic, stop distances, stop times, recharge flags and whose vehicle's optional limits are symbolic: each check
